@@ -1,29 +1,29 @@
 SPECIFICATION Spec
 CONSTANTS
  NP = 1
- MaxJobs = 2
+ MaxJobs = 3
  VerTable <- MCVerTable
  InitCfgs <- MCInitCfgs
  Reloads <- MCReloads
- MaxReloads = 1
- MaxTicks = 2
+ MaxReloads = 0
+ MaxTicks = 3
  BadKinds <- MCBad
- MaxOps = 3
+ MaxOps = 5
  Features <- MCFeatures
  Gen = FALSE
 CHECK_DEADLOCK FALSE
 ALIAS Alias
 INVARIANTS TypeOK WaitListSound WaitListComplete
+INVARIANTS
  PrC01_LimitAtStart PrC01_RunInsideSpan PrC01_RunLimit
- PrC02_AtMostOnce PrC02_SuccessMeansAll
+ PrC02_AtMostOnce PrC02_SuccessMeansAll PrC02_CyclicNeverRuns PrC02_AcyclicCompletes
  PrC03_NoIdleHead
  PrC04_NotStartedNeverRuns PrC04_StopDelivered PrC04_NoNewTaskAfterStop PrC04_ReportedCanceled PrC04_Results
  PrC05_Table PrC05_RejectNoTrace PrC05_Bound PrC05_UndefinedRejected
- PrC06_Fifo PrC07_NotBefore
- PrC08_FailFast PrC08_VerdictSound PrC08_NoRunningAfterCompleted
- PrC10_AllTerminal PrC10_NoGhosts PrC10_SameSet PrC10_FinishedFaithful
- PrC11_AllTerminal PrC11_StoreMatches PrC11_RejectAfter PrC11_GracefulRunsOut PrC11_ForcedCancels PrC11_ForcedStops PrC11_PersistWithinInterval
- PrC12_KeepsUnfinished PrC12_NoSettingsNoRemoval PrC12_NewestFirstClosure PrC12_CountBound PrC12_PeriodBound PrC12_UndefinedPurged PrC12_ThreeViewsAgree
+ PrC06_Fifo
+ PrC07_NotBefore PrC07_NeverStartedNeverRuns PrC07_NewestWins
+PROPERTIES PrC02_DepsFirst PrC08_NoRunAfterFailedDep
+INVARIANTS
+ PrC08_FailFast PrC08_Continue PrC08_VerdictSound PrC08_NoRunningAfterCompleted
  PrC15_SchedulableIffAccepted PrC15_RunningIffExecuting PrC15_ListedFromReturn PrC15_NewestFirst PrC15_TimesOrdered PrC15_TaskOrder
  PrC16_SnapshotRuns PrC16_ReloadIsInert
-PROPERTIES PrC02_DepsFirst PrC08_NoRunAfterFailedDep
